@@ -674,3 +674,63 @@ SUBCHECKS.append(_after.make(SUBCHECKS, inner=['php', 'gphp', 'gphp', 'bphp', 'r
 from vlib import viacli as _viacli   # noqa: E402
 
 SUBCHECKS.append(_viacli.make(SUBCHECKS, inner=['php', 'gphp', 'bphp', 'rphp', 'count', 'matching', 'subsetcard', 'cliquecoloring'], required_labels=['built-by-tool', 'via:cnfgen', 'via:pbgen']))
+
+
+# ---------------------------------------------------------------------------
+# 'php M N D' at the two ends of the degree range, where the graph is not random
+
+def run_php_degree(case):
+    """`php M N D`: every pigeon may fly to D random holes; D = 0 (no hole at all) and D = N (every hole) are deterministic"""
+    import cnfgen
+    from vlib import cli as _cli
+    from cnfgen.clitools.cmdline import CLIError
+    from cnfgen.graphs import BipartiteGraph
+    m, n, D, fun, onto, tool = case['m'], case['n'], case['D'], case['functional'], case['onto'], case['tool']
+    args = ['-q', '--seed', str(case['seed']), 'php', str(m), str(n), str(D)] + (['--functional'] if fun else []) + (['--onto'] if onto else [])
+    what = "{} {}".format(tool, ' '.join(args))
+    try:
+        F = _cli.build(tool, args)
+    except CLIError:
+        # the command line may refuse a degree (the library graph is then not at stake); never silently build something else
+        return Outcome(labels=['php-degree-refused', 'D=0' if D == 0 else 'D=N'], rejected=True, nontrivial=False)
+    B = BipartiteGraph(m, n)
+    if D == n:
+        for u in range(1, m + 1):
+            for v in range(1, n + 1):
+                B.add_edge(u, v)
+    nv = F.number_of_variables()
+    if nv != m * D:
+        raise Violation("{}: {} variables, but {} pigeons with {} holes each give {}".format(what, nv, m, D, m * D))
+    dec = names.group(names.decode(F), 'p')
+    expect_indices(dec, [(i, j) for i in range(1, m + 1) for j in range(1, n + 1)] if D == n else [], what)
+    if nv <= THOROUGH_MAXV:
+        x = {k_: tt.var_mask(nv, v) for k_, v in dec.items()}
+        P, H = range(1, m + 1), range(1, n + 1)
+        holes = {i: (list(H) if D == n else []) for i in P}
+        pigeons = {j: (list(P) if D == n else []) for j in H}
+        want = php_predicate(nv, x, P, H, holes, pigeons, fun, onto)
+        got = tt.formula_tt(F)
+        if got != want:
+            raise Violation("{}: the formula is {} but pigeons with {} must be {}".format(
+                what, 'satisfiable' if got else 'unsatisfiable', 'no hole to go to' if D == 0 else 'every hole available',
+                'satisfiable' if want else 'unsatisfiable'))
+    return Outcome(labels=['php-degree', 'D=0' if D == 0 else 'D=N', tool], nontrivial=m >= 1 and n >= 1)
+
+
+def enum_php_degree(tier):
+    k = 0
+    for m in range(1, 5):
+        for n in range(1, 5):
+            for D in (0, n):
+                for fun in (False, True):
+                    for onto in (False, True):
+                        k += 1
+                        if m * D > THOROUGH_MAXV or (tier == 'quick' and k % 2):
+                            continue
+                        yield {'m': m, 'n': n, 'D': D, 'functional': fun, 'onto': onto, 'tool': ('cnfgen', 'pbgen')[k % 4 == 0], 'seed': k}
+
+
+SUBCHECKS.append(
+    SubCheck('php_degree', run_php_degree, enumerate_cases=enum_php_degree,
+             rule="command lines 'php M N D' with D = 0 and D = N (M, N in 1..4, the four flag combinations, both tools): the two degrees for which the graph is not random; oracle: m*D variables named p_{i,j}, model set == the pigeonhole predicate on the empty / complete bipartite graph; non-trivial: all",
+             required_labels=['php-degree', 'D=0', 'D=N']))
